@@ -565,11 +565,23 @@ fn side_audit(n: &nomt::Nomt<B3>, sides: &Sides, uni: &[Key], t: u64, what: &str
 }
 
 fn check_image(ic: &ImageCheck, img: &DirImage, sides: &Sides, t: u64, what: &str, out: &mut Outcome, depth: usize, cap: usize, capped: &mut u64) -> Result<(), Violation> {
-    img.materialize(&ic.dir).map_err(|e| viol("machinery", format!("materialize: {e}")))?;
+    // a directory of its own for every image: a store poisoned by a failed follow-up commit may
+    // still have background work in flight after its handle is dropped, and must never share
+    // files with the next image
+    static IMAGE_NO: std::sync::atomic::AtomicU64 = std::sync::atomic::AtomicU64::new(0);
+    struct RmDir(std::path::PathBuf);
+    impl Drop for RmDir {
+        fn drop(&mut self) {
+            let _ = std::fs::remove_dir_all(&self.0);
+        }
+    }
+    let dir = RmDir(ic.dir.with_extension(format!("{}", IMAGE_NO.fetch_add(1, std::sync::atomic::Ordering::Relaxed))));
+    let dir = &dir.0;
+    img.materialize(dir).map_err(|e| viol("machinery", format!("materialize: {e}")))?;
     out.transitions += 1;
     // open with recording, for nested cuts
     let (opened, rtrace) = record(|| {
-        std::panic::catch_unwind(std::panic::AssertUnwindSafe(|| open_nomt::<B3>(&ic.dir, ic.cfg)))
+        std::panic::catch_unwind(std::panic::AssertUnwindSafe(|| open_nomt::<B3>(dir, ic.cfg)))
     });
     let n = match opened {
         Err(_) => {
@@ -594,7 +606,7 @@ fn check_image(ic: &ImageCheck, img: &DirImage, sides: &Sides, t: u64, what: &st
     }
     if ic.decode {
         // decode the recovered, quiescent image
-        let rec = DirImage::snapshot(&ic.dir).map_err(|e| viol("machinery", format!("snapshot: {e}")))?;
+        let rec = DirImage::snapshot(dir).map_err(|e| viol("machinery", format!("snapshot: {e}")))?;
         let opts = imgdec::CheckOpts {
             structure: true,
             kv_equals_model: true,
@@ -623,7 +635,13 @@ fn check_image(ic: &ImageCheck, img: &DirImage, sides: &Sides, t: u64, what: &st
         let session = n.begin_session(nomt::SessionParams::default());
         let actuals = driver::Db::<B3>::actuals(&session, &batch, &model.kv).map_err(|m| viol("follow-up", format!("{what}: {m}")))?;
         let fin = session.finish(actuals).map_err(|e| viol("follow-up", format!("{what}: follow-up finish failed: {e:#}")))?;
-        fin.commit(&n).map_err(|e| viol("follow-up", format!("{what}: follow-up commit failed: {e:#}")))?;
+        match fin.commit(&n) {
+            Ok(()) => {}
+            // a hash table that the history keeps exactly full may legitimately refuse the
+            // follow-up batch; nothing more can be asked of this handle afterwards
+            Err(e) if ic.cfg.buckets <= 8 && format!("{e:#}").contains("exhaustion") => return Ok(()),
+            Err(e) => return Err(viol("follow-up", format!("{what}: follow-up commit failed: {e:#}"))),
+        }
         model.commit(&driver::writes_of(&batch));
         audit::<B3>(&n, &model, ic.uni, AuditFlags::ALL).map_err(|m| viol("follow-up", format!("{what}: after a follow-up commit: {m}")))?;
         if ic.cfg.rollback && model.can_serve(1) {
